@@ -8,6 +8,7 @@ what the sum-type spec prescribes; `etl::optional` and `etl::expected` are simul
 arbitrary element operator tables.
 -/
 import TetlProofs.C07.Lemmas
+import TetlProofs.C07.Select
 namespace Tetl.C07.Props
 open Tetl Tetl.C07
 
@@ -335,6 +336,14 @@ theorem valueOr_eq (v : V α) (d : α) : valueOr v d = .ok ((Spec.absO v).getD d
 theorem andThen_eq {ρ : Type} (v : V α) (f : α → ρ) : andThen v f = .ok ((Spec.absO v).map f) := by
   unfold andThen hasValue deref getAt Spec.absO
   by_cases h : v.idx = 1 <;> simp [h]
+
+/-! ## converting constructor / assignment: which alternative -/
+
+/-- the overload-resolution scan of the converting constructor and converting assignment (left to right, best
+    non-narrowing candidate so far, tie flag) selects exactly the alternative [variant.ctor]/[variant.assign]
+    prescribe: the unique viable alternative that is strictly better than every other viable one, and nothing
+    when there is none or the best is tied — for any number of alternatives and any candidate table -/
+theorem select_eq (cands : List (Option Cand)) : select cands = Spec.select cands := Tetl.C07.select_eq cands
 
 /-! ## relational operators -/
 
